@@ -46,9 +46,14 @@ VERSIONS = [
     ("S: 'a' S | 'a';\n", "S: 'a' 'b' | 'b' S;\n"),
     ("import 'sub.pg' as s;\nS: s.X S | s.X;\n", "import 'sub.pg' as s;\nS: 'c' s.X | s.X;\n"),
     ("E: E '+' E | E '*' E | 'n';\n", "E: E '+' E | 'n' | '(' E ')';\n"),
+    # lexically ambiguous terminals: the table-affecting option lexical_disambiguation matters
+    ("S: Tok+;\nTok: 'let' | ID;\nterminals\nID: /[a-z]+/;\n", "S: Tok+;\nTok: 'let' ID | ID;\nterminals\nID: /[a-z]+/;\n"),
 ]
-SUB_VERSIONS = ("X: 'x' | 'y';\n", "X: 'x' 'x';\n")
-PROBES = ["a", "aa", "ab", "b", "bab", "x", "xx", "xy", "cx", "cxx", "n+n", "n+n*n", "n+n+n", "(n)", "n*n*n", ""]
+# sub.pg imports leaf.pg: a file the root does not import itself
+SUB_VERSIONS = ("import 'leaf.pg' as l;\nX: 'x' | l.Y;\n", "import 'leaf.pg' as l;\nX: 'x' 'x' | l.Y;\n")
+LEAF_VERSIONS = ("Y: 'y';\n", "Y: 'y' 'y' | 'z';\n")
+PROBES = ["a", "aa", "ab", "b", "bab", "x", "xx", "xy", "y", "yy", "z", "cx", "cxx", "cz", "n+n", "n+n*n", "n+n+n",
+          "(n)", "n*n*n", "", "let", "let x", "letx let", "x let"]
 
 
 def units(tier):
@@ -144,22 +149,25 @@ class Dir:
     def __init__(self, fam):
         self.d = tempfile.mkdtemp(prefix="pgverif-c12h-")
         self.fam = fam
-        self.ver = {"root": 0, "sub": 0}
+        self.ver = {"root": 0, "sub": 0, "leaf": 0}
         self.clock = 1_000_000_000
         self.root = os.path.join(self.d, "root.pg")
         self.sub = os.path.join(self.d, "sub.pg")
+        self.leaf = os.path.join(self.d, "leaf.pg")
         self.pgc = os.path.join(self.d, "root.pgc")
         self.writer_opts = None
         self.write("root")
         self.write("sub")
+        self.write("leaf")
 
     def tick(self):
         self.clock += 10
         return self.clock
 
     def write(self, which):
-        path = self.root if which == "root" else self.sub
-        text = VERSIONS[self.fam][self.ver["root"]] if which == "root" else SUB_VERSIONS[self.ver["sub"]]
+        path = {"root": self.root, "sub": self.sub, "leaf": self.leaf}[which]
+        text = {"root": VERSIONS[self.fam][self.ver["root"]], "sub": SUB_VERSIONS[self.ver["sub"]],
+                "leaf": LEAF_VERSIONS[self.ver["leaf"]]}[which]
         open(path, "w").write(text)
         t = self.tick()
         os.utime(path, (t, t))
@@ -211,6 +219,7 @@ def fresh_reference(dr, kind, kw):
     try:
         shutil.copy(dr.root, os.path.join(d2, "root.pg"))
         shutil.copy(dr.sub, os.path.join(d2, "sub.pg"))
+        shutil.copy(dr.leaf, os.path.join(d2, "leaf.pg"))
         try:
             return probe(build(kind, kw, os.path.join(d2, "root.pg")))
         except (SRConflicts, RRConflicts) as e:
@@ -230,8 +239,8 @@ def run_history(u, res):
         ops = []
         try:
             for step in range(rng.randint(2, u["maxops"])):
-                op = rng.choice(["construct", "construct", "construct", "edit", "edit-sub", "touch", "touch-sub",
-                                 "crash", "remove", "compile"])
+                op = rng.choice(["construct", "construct", "construct", "edit", "edit-sub", "edit-leaf", "touch",
+                                 "touch-sub", "touch-leaf", "crash", "remove", "compile"])
                 if op == "edit":
                     dr.ver["root"] ^= 1
                     dr.write("root")
@@ -240,8 +249,12 @@ def run_history(u, res):
                     dr.ver["sub"] ^= 1
                     dr.write("sub")
                     ops.append("edit sub")
-                elif op in ("touch", "touch-sub"):
-                    path = dr.root if op == "touch" else dr.sub
+                elif op == "edit-leaf":
+                    dr.ver["leaf"] ^= 1
+                    dr.write("leaf")
+                    ops.append("edit leaf")
+                elif op in ("touch", "touch-sub", "touch-leaf"):
+                    path = {"touch": dr.root, "touch-sub": dr.sub, "touch-leaf": dr.leaf}[op]
                     t = dr.tick()
                     os.utime(path, (t, t))
                     ops.append(op)
@@ -272,6 +285,7 @@ def run_history(u, res):
                     kind, kw = fixed_opt if same_opts else rng.choice(OPTS)
                     before = dr.pgc_sig()
                     case = {"family": VERSIONS[fam][dr.ver["root"]], "sub": SUB_VERSIONS[dr.ver["sub"]],
+                            "leaf": LEAF_VERSIONS[dr.ver["leaf"]],
                             "history": list(ops), "construct": [kind, {k: str(v) for k, v in kw.items()}]}
                     ops.append("construct %s %s" % (kind, {k: str(v) for k, v in kw.items()}))
                     try:
@@ -310,21 +324,29 @@ def run_history(u, res):
 
 def run_truncate(u, res):
     st = res["stats"]
-    for fam in range(len(VERSIONS)):
+    for fam, (kind, kw) in [(f, o) for f in range(len(VERSIONS)) for o in (OPTS[0], OPTS[1], OPTS[2])]:
         dr = Dir(fam)
         try:
-            p = build("Parser", {}, dr.root)
+            try:
+                p = build(kind, kw, dr.root)
+            except (SRConflicts, RRConflicts):
+                continue
             want = probe(p)
             data = open(dr.pgc, "rb").read()
-            for k in range(0, len(data), u["step"]):
+            for k in range(0, len(data), u["step"] * 3):
                 open(dr.pgc, "wb").write(data[:k])
                 t = dr.clock + 1000
                 os.utime(dr.pgc, (t, t))
-                case = {"family": VERSIONS[fam][0], "truncated_to": k, "of": len(data)}
+                case = {"family": VERSIONS[fam][0], "parser": kind, "options": {a: str(b) for a, b in kw.items()},
+                        "truncated_to": k, "of": len(data)}
                 res["evaluations"] += 1
                 st["truncations"] += 1
                 try:
-                    got = probe(build("Parser", {}, dr.root))
+                    got = probe(build(kind, kw, dr.root))
+                    # the rewritten table file must be right too: a second construction loads it
+                    got2 = probe(build(kind, kw, dr.root))
+                    if got2 != got:
+                        got = got2
                 except Exception as e:
                     got = [("raises", type(e).__name__)]
                 if got != want:
